@@ -4,7 +4,7 @@
   next predicate call) produces a promise that is SPECIFIED (`PSpec`) by the result of the
   reference's `solve` on that resolvent.
 -/
-import PrologVerif.Proofs.RefineStep
+import PrologVerif.Proofs.RefineCall
 import PrologVerif.Proofs.CollectCanon
 namespace PrologVerif.Refine
 open PrologVerif PrologVerif.VM PrologVerif.DecompileCompile PrologVerif.Activation
@@ -79,7 +79,11 @@ theorem ansRel_of_sim {tmpl : Term} {N : Nat} {env : Env} {σ : Subst} {π : Nat
 
 /-- the program is loaded (nothing in the fragment changes the procedure table); ids are positive -/
 def StOK (prog : List Term) (m : MS) : Prop :=
-  m.user.procs = (initState prog none).procs ∧ 0 < m.user.nextId
+  m.user.procs = (initState prog none).procs ∧ 0 < m.user.nextId ∧ m.user.cancelAt = none
+
+theorem StOK.nextId {prog : List Term} {m : MS} (h : StOK prog m) :
+    StOK prog { m with user := { m.user with nextId := m.user.nextId + 1 } } :=
+  ⟨h.1, Nat.succ_pos _, h.2.2⟩
 
 theorem lookupProc_stOK {prog : List Term} {m : MS} (h : StOK prog m) (f : String) (n : Nat) :
     lookupProc m.user f n = lookupProc (initState prog none) f n := by
@@ -105,11 +109,14 @@ theorem CutsOK.tail {lv : Lv} {it : Term × Nat} {G : List (Term × Nat)} (h : C
 
 /-- the path's level map is in order: ids distinct and non-zero, levels strictly decreasing outward,
     all below the current depth `d` -/
-structure LvOK (lv : Lv) (d : Nat) : Prop where
+structure LvOK (mo : Option Nat) (lv : Lv) (d : Nat) : Prop where
   nodup : (lv.map Prod.fst).Nodup
   nz : ∀ e ∈ lv, e.1 ≠ 0
   mono : lv.Pairwise (fun a b => ∀ la lb, a.2 = some la → b.2 = some lb → lb < la)
   below : ∀ e ∈ lv, ∀ l, e.2 = some l → l < d
+  /-- in the search nested in `\\+`: everything is above the level of the cut of `\\+` -/
+  lo : ∀ dN, mo = some dN → dN < d
+  above : ∀ dN, mo = some dN → ∀ e ∈ lv, ∀ l, e.2 = some l → dN < l
 
 theorem lookup_of_mem_nodup {α β : Type} [BEq α] [LawfulBEq α] : ∀ {l : List (α × β)} {e : α × β},
     (l.map Prod.fst).Nodup → e ∈ l → l.lookup e.1 = some e.2
@@ -156,54 +163,436 @@ theorem Lv.mem_of_lev {lv : Lv} {c l : Nat} (h : lv.lev c = some l) : (c, some l
 /-- a continuation point of the VM (`K` under `env`, variable counter at least `nvar`) against a
     configuration of the reference (`R`, `q`, `nv`) on a path with level map `lv`; `P` says more
     about σ, π, D -/
-def SimAt (tmpl : Term) (max : Nat) (lv : Lv) (K : Cont) (env : Env) (nvar : Nat) (R : List SLD.Frame) (q : Term)
+def SimAt (fl : Bool) (mo : Option Nat) (tmpl : Term) (max : Nat) (lv : Lv) (K : Cont) (env : Env) (nvar : Nat) (R : List SLD.Frame) (q : Term)
     (nv : Nat) (P : Subst → (Nat → Nat) → (Nat → Prop) → Prop) : Prop :=
-  ∃ N σ π D G, N ≤ nvar ∧ SimW tmpl N env σ π D nv ∧ ContGoals tmpl max K G ∧ GRel lv σ π D G R ∧
+  ∃ N σ π D G, N ≤ nvar ∧ SimW tmpl N env σ π D nv ∧ ContGoals fl mo tmpl max K G ∧ GRel mo lv σ π D G R ∧
     CutsOK lv G ∧ q = img σ π tmpl ∧ P σ π D
 
-theorem SimAt.mono {tmpl : Term} {max : Nat} {lv : Lv} {K : Cont} {env : Env} {nvar nvar' : Nat} {R : List SLD.Frame}
+theorem SimAt.mono {fl : Bool} {mo : Option Nat} {tmpl : Term} {max : Nat} {lv : Lv} {K : Cont} {env : Env} {nvar nvar' : Nat} {R : List SLD.Frame}
     {q : Term} {nv : Nat} {P : Subst → (Nat → Nat) → (Nat → Prop) → Prop}
-    (h : SimAt tmpl max lv K env nvar R q nv P) (hn : nvar ≤ nvar') : SimAt tmpl max lv K env nvar' R q nv P := by
+    (h : SimAt fl mo tmpl max lv K env nvar R q nv P) (hn : nvar ≤ nvar') : SimAt fl mo tmpl max lv K env nvar' R q nv P := by
   obtain ⟨N, σ, π, D, G, h1, h2⟩ := h
   exact ⟨N, σ, π, D, G, Nat.le_trans h1 hn, h2⟩
 
 def errT (F c : Term) : Term := .app "error" (.cons F (.cons c .nil))
 
+/-- `x` is a variable of the clause term `c` -/
+def CV (c : Term) (x : Nat) : Prop :=
+  (SLD.headBody c).1.hasVar x = true ∨ (SLD.headBody c).2.hasVar x = true
+
+/-- predicate indicator of the goal `g` -/
+def goalKey (g : Term) : String × Nat := (functorName g, (argList g).length)
+
+/-- the goals of a clause body against frames of the reference: the frame is the instance of the
+    goal (a cut: with the level `d` of the call), or — for a goal `call(X)` — `call` of the instance
+    (the reference's `once/1`, `\\+` call `call(G)`) -/
+inductive FrRel (inst : Term → Term) (d : Nat) : List Term → List SLD.Frame → Prop
+  | nil : FrRel inst d [] []
+  | cons {bg : Term} {Bs : List Term} {Fs : List SLD.Frame} (l : Nat) : (bg = .atom "!" → l = d) →
+      FrRel inst d Bs Fs → FrRel inst d (bg :: Bs) (.goal (inst bg) l :: Fs)
+  | callw {x : Term} {Bs : List Term} {Fs : List SLD.Frame} (l : Nat) :
+      FrRel inst d Bs Fs → FrRel inst d (SLD.call1 x :: Bs) (.goal (SLD.call1 (inst (SLD.call1 x))) l :: Fs)
+
+theorem FrRel.congr {inst inst' : Term → Term} {d : Nat} {Bs : List Term} {Fs : List SLD.Frame}
+    (h : FrRel inst d Bs Fs) (heq : ∀ bg ∈ Bs, inst bg = inst' bg) : FrRel inst' d Bs Fs := by
+  induction h with
+  | nil => exact .nil
+  | cons l hl _ ih =>
+    rw [heq _ (by simp)]
+    exact .cons l hl (ih (fun bg hbg => heq bg (by simp [hbg])))
+  | callw l _ ih =>
+    rw [heq _ (by simp)]
+    exact .callw l (ih (fun bg hbg => heq bg (by simp [hbg])))
+
+/-- a compiled clause of the VM, the clause term `Head :- Body` it stands for (one alternative of the
+    body of the clause it was compiled from), and the alternative of the reference (if any) -/
+abbrev Item := Clause × Term × Option SLD.Alt
+
+/-- **how a clause of the VM, called with the arguments of the goal `g`, relates to an alternative
+    of the reference** (σ, π, D: the simulation relation at the call; `nv` the reference's variable
+    counter; `d` the depth of the call):
+    * `prog`: a clause of the program — the reference resolves the goal with it;
+    * `frames`: a clause without counterpart in the reference's program (the clause `call/1`
+      compiles, a control clause of bootstrap.pl) — the reference puts the frames `Fs` in front of
+      the resolvent: they are the body of the clause under the unifier τ2 of goal and (renamed) head,
+      which only binds the new names; then possibly `call(true)` frames the VM has no goal for;
+    * `dead`: the head does not unify with the goal: no alternative of the reference -/
+inductive AltRel (fl : Bool) (σ : Subst) (π : Nat → Nat) (D : Nat → Prop) (nv d : Nat) (g : Term) :
+    Clause → Term → Option SLD.Alt → Prop
+  | prog {cl : Clause} {c : Term} : CRel fl cl (SLD.headBody c).1 (SLD.headBody c).2 → headKey c = goalKey g →
+      AltRel fl σ π D nv d g cl c (some (.clause (img σ π g) (ruleOf c)))
+  | frames {cl : Clause} {c : Term} (κ : Nat → Nat) (nv' : Nat) (τ2 : Subst) (ls : List Nat) {Fs : List SLD.Frame} :
+      CRel fl cl (SLD.headBody c).1 (SLD.headBody c).2 → headKey c = goalKey g → nv ≤ nv' →
+      (∀ x y, CV c x → CV c y → κ x = κ y → x = y) →
+      (∀ x u, CV c x → RV σ D u → π u ≠ κ x) →
+      (∀ x, CV c x → κ x < nv') →
+      MguLike (img σ π g) ((SLD.headBody c).1.rename κ) τ2 →
+      (∀ s : Term, (∀ z, s.hasVar z = true → z < nv) → s.subst τ2 = s) →
+      (∀ x, CV c x → ∀ z, (τ2 (κ x)).hasVar z = true → z < nv) →
+      FrRel (fun bg => (bg.rename κ).subst τ2) d (SLD.conjuncts (SLD.headBody c).2) Fs →
+      AltRel fl σ π D nv d g cl c (some (.frames (Fs ++ ls.map skipF)))
+  | dead {cl : Clause} {c : Term} (κ : Nat → Nat) (nv' : Nat) :
+      CRel fl cl (SLD.headBody c).1 (SLD.headBody c).2 → headKey c = goalKey g → nv ≤ nv' →
+      (∀ x y, CV c x → CV c y → κ x = κ y → x = y) →
+      (∀ x u, CV c x → RV σ D u → π u ≠ κ x) →
+      (∀ x, CV c x → κ x < nv') →
+      (∃ n, Robinson.solve n [(img σ π g, (SLD.headBody c).1.rename κ)] [] = .clash) →
+      AltRel fl σ π D nv d g cl c none
+
+/-- the clauses of a call against the alternatives of the reference, in order.  `vcut`: the body
+    of the clause starts with a cut that the reference does not have (`_ -> _ ; Else :- !, Else.`):
+    harmless when nothing follows in the reference (the clauses that follow in the VM are cut away) -/
+inductive AltsRel (fl : Bool) (σ : Subst) (π : Nat → Nat) (D : Nat → Prop) (nv d : Nat) (g : Term) :
+    List Item → Prop
+  | nil : AltsRel fl σ π D nv d g []
+  | cons {cl : Clause} {c : Term} {a : Option SLD.Alt} {its : List Item} :
+      AltRel fl σ π D nv d g cl c a → AltsRel fl σ π D nv d g its → AltsRel fl σ π D nv d g ((cl, c, a) :: its)
+  | vcut {cl : Clause} {c : Term} {Fs Fs' : List SLD.Frame} {its : List Item} :
+      AltRel fl σ π D nv d g cl c (some (.frames Fs')) → Fs' = .goal (.atom "!") d :: Fs →
+      its.filterMap (·.2.2) = [] →
+      AltsRel fl σ π D nv d g ((cl, c, some (.frames Fs)) :: its)
+
+theorem altsRel_of_forall {fl : Bool} {σ : Subst} {π : Nat → Nat} {D : Nat → Prop} {nv d : Nat} {g : Term} :
+    ∀ {its : List Item}, (∀ it ∈ its, AltRel fl σ π D nv d g it.1 it.2.1 it.2.2) →
+      AltsRel fl σ π D nv d g its
+  | [], _ => .nil
+  | (cl, c, a) :: its, h => .cons (h (cl, c, a) (by simp)) (altsRel_of_forall (fun it hit => h it (by simp [hit])))
+
+/-- the alternatives of `\\+ G` ≡ `(call(G) -> fail ; true)` in the reference -/
+def negAlts (c : Term) (d l : Nat) : List SLD.Alt :=
+  [.frames [.goal (SLD.call1 (SLD.call1 c)) d, .goal (.atom "!") d, .goal (SLD.call1 (.atom "fail")) l],
+   .frames [skipF l]]
+
 /-- what the search below a promise `p` (in state `m`, on a path with level map `lv`, `ans0` the
     answers when the corresponding reference computation — at depth `d` — started) has to deliver:
     the result `r` of that computation -/
-inductive PSpec (tmpl : Term) (max : Nat) (prog : List Term) : Lv → Nat → Pr → MS → List Term → SLD.Res → Prop
+inductive PSpec (fl : Bool) (mo : Option Nat) (tmpl : Term) (max : Nat) (prog : List Term) : Lv → Nat → Pr → MS → List Term → SLD.Res → Prop
   | fail {lv : Lv} {d : Nat} {m : MS} {ans0 : List Term} : m.user.answers = ans0 →
-      PSpec tmpl max prog lv d failP m ans0 ⟨[], .exhausted⟩
-  | answer {lv : Lv} {d : Nat} {m : MS} {ans0 : List Term} {a q : Term} : m.user.answers = a :: ans0 → AnsRel tmpl a q →
-      PSpec tmpl max prog lv d (if (a :: ans0).length ≥ max then okP else failP) m ans0
+      PSpec fl mo tmpl max prog lv d failP m ans0 ⟨[], .exhausted⟩
+  | done {lv : Lv} {d dN : Nat} {m : MS} {ans0 : List Term} : mo = some dN → m.user.answers = ans0 →
+      PSpec fl mo tmpl max prog lv d okP m ans0 ⟨[], .cut dN⟩
+  | answer {lv : Lv} {d : Nat} {m : MS} {ans0 : List Term} {a q : Term} : mo = none →
+      m.user.answers = a :: ans0 → AnsRel tmpl a q →
+      PSpec fl mo tmpl max prog lv d (if (a :: ans0).length ≥ max then okP else failP) m ans0
         ⟨[q], if max - ans0.length = 1 then .full else .exhausted⟩
   | err {lv : Lv} {d : Nat} {m : MS} {ans0 : List Term} {F c1 c2 : Term} : m.user.answers = ans0 →
-      PSpec tmpl max prog lv d (errP (.exc (errT F c1))) m ans0 ⟨[], .raised (errT F c2) []⟩
-  | alts {lv : Lv} {m : MS} {ans0 : List Term} {id : Nat} {cs : List Term} {g g2 : Term} {K : Cont} {env : Env}
-      {R : List SLD.Frame} {q : Term} {nv n d : Nat} {r : SLD.Res} :
-      m.user.answers = ans0 → id ≠ 0 →
-      (∀ c ∈ cs, clauseOK c = true ∧ headKey c = (functorName g, (argList g).length)) →
-      Shape g →
-      SimAt tmpl max lv K env m.user.nextVar R q nv (fun σ π D => InD D g ∧ g2 = img σ π g) →
-      SLD.solveAlts false (progS prog) n d nv (cs.map (fun c => .clause g2 (ruleOf c))) R q (max - ans0.length) = some r →
-      PSpec tmpl max prog lv d { id := id, delayed := cs.map (fun c => Thunk.clause (clauseOf c) (argList g) K env id) }
-        m ans0 r
+      PSpec fl mo tmpl max prog lv d (errP (.exc (errT F c1))) m ans0 ⟨[], .raised (errT F c2) []⟩
+  | alts {lv : Lv} {m : MS} {ans0 : List Term} {id : Nat} {its : List Item} {g : Term}
+      {K : Cont} {env : Env} {R : List SLD.Frame} {q : Term} {nv n d : Nat} {r : SLD.Res} :
+      m.user.answers = ans0 → id ≠ 0 → Shape g →
+      SimAt fl mo tmpl max lv K env m.user.nextVar R q nv
+        (fun σ π D => InD D g ∧ AltsRel fl σ π D nv d g its) →
+      SLD.solveAlts false (progS prog) n d nv (its.filterMap (·.2.2)) R q (max - ans0.length) = some r →
+      PSpec fl mo tmpl max prog lv d
+        { id := id, delayed := its.map (fun it => Thunk.clause it.1 (argList g) K env id) } m ans0 r
   | direct {lv : Lv} {m : MS} {ans0 : List Term} {id : Nat} {ct : Clause} {K : Cont} {env : Env}
       {R : List SLD.Frame} {q : Term} {nv n d : Nat} {r : SLD.Res} :
       m.user.answers = ans0 → id ≠ 0 → ct.code = [.exit] → ct.vars = [] →
-      SimAt tmpl max lv K env m.user.nextVar R q nv (fun _ _ _ => True) →
+      SimAt fl mo tmpl max lv K env m.user.nextVar R q nv (fun _ _ _ => True) →
       SLD.solve false (progS prog) n d nv R q (max - ans0.length) = some r →
-      PSpec tmpl max prog lv d { id := id, delayed := [Thunk.clause ct [] K env id] } m ans0 r
+      PSpec fl mo tmpl max prog lv d { id := id, delayed := [Thunk.clause ct [] K env id] } m ans0 r
   | cut {lv : Lv} {m : MS} {ans0 : List Term} {pc : List Op} {vars : List Nat} {k : Cont} {cp l : Nat} {env : Env}
       {R : List SLD.Frame} {q : Term} {nv n d : Nat} {r : SLD.Res}
       {N : Nat} {σ : Subst} {π : Nat → Nat} {D : Nat → Prop} {G' : List (Term × Nat)} :
       m.user.answers = ans0 → lv.lev cp = some l →
-      N ≤ m.user.nextVar → SimW tmpl N env σ π D nv → ContGoals tmpl max (.exec pc vars cp k) G' →
-      GRel lv σ π D G' R → CutsOK lv G' → q = img σ π tmpl →
+      N ≤ m.user.nextVar → SimW tmpl N env σ π D nv → ContGoals fl mo tmpl max (.exec pc vars cp k) G' →
+      GRel mo lv σ π D G' R → CutsOK lv G' → q = img σ π tmpl →
       (∀ it ∈ G', isCut it → ∀ l', lv.lev it.2 = some l' → l' ≤ l) →
       SLD.solve false (progS prog) n d nv R q (max - ans0.length) = some r →
-      PSpec tmpl max prog lv d (cutPromise pc vars k env cp) m ans0 (SLD.afterCut l r)
+      PSpec fl mo tmpl max prog lv d (cutPromise pc vars k env cp) m ans0 (SLD.afterCut l r)
+  | neg {lv : Lv} {m : MS} {ans0 : List Term} {id : Nat} {g c : Term} {K : Cont} {env : Env}
+      {R : List SLD.Frame} {q : Term} {nv n d l : Nat} {r : SLD.Res} :
+      m.user.answers = ans0 → id ≠ 0 → fl = true →
+      SimAt fl mo tmpl max lv K env m.user.nextVar R q nv (fun σ π D => InD D g ∧ c = img σ π g) →
+      SLD.solveAlts false (progS prog) n d nv (negAlts c d l) R q (max - ans0.length) = some r →
+      PSpec fl mo tmpl max prog lv d { id := id, delayed := [Thunk.negate g K env] } m ans0 r
+
+/-! ### calls with one alternative that the VM does not make (`call(call(G))`, `call(true)`) -/
+
+
+
+/-- what a call with one alternative makes of the result of its body: the answers are kept, a cut
+    of its own level ends there -/
+def post (d : Nat) (r1 : SLD.Res) : SLD.Res :=
+  match r1.stop with
+  | .exhausted => ⟨r1.answers ++ [], .exhausted⟩
+  | .cut c => { r1 with stop := if c = d then .exhausted else .cut c }
+  | _ => r1
+
+/-- `j` such calls, at depths `d`, …, `d + j - 1` -/
+def postN : Nat → Nat → SLD.Res → SLD.Res
+  | _, 0, r => r
+  | d, j + 1, r => post d (postN (d + 1) j r)
+
+/-- `PSpec`, with the reference possibly some calls deeper -/
+def PSpecW (fl : Bool) (mo : Option Nat) (tmpl : Term) (max : Nat) (prog : List Term) (lv : Lv) (d : Nat) (p : Pr) (m : MS)
+    (ans0 : List Term) (r : SLD.Res) : Prop :=
+  ∃ j r1, PSpec fl mo tmpl max prog lv (d + j) p m ans0 r1 ∧ r = postN d j r1
+
+theorem PSpec.toW {fl : Bool} {mo : Option Nat} {tmpl : Term} {max : Nat} {prog : List Term} {lv : Lv} {d : Nat} {p : Pr} {m : MS}
+    {ans0 : List Term} {r : SLD.Res} (h : PSpec fl mo tmpl max prog lv d p m ans0 r) :
+    PSpecW fl mo tmpl max prog lv d p m ans0 r := ⟨0, r, h, rfl⟩
+
+theorem PSpecW.wrap {fl : Bool} {mo : Option Nat} {tmpl : Term} {max : Nat} {prog : List Term} {lv : Lv} {d : Nat} {p : Pr} {m : MS}
+    {ans0 : List Term} {r1 : SLD.Res} (h : PSpecW fl mo tmpl max prog lv (d + 1) p m ans0 r1) :
+    PSpecW fl mo tmpl max prog lv d p m ans0 (post d r1) := by
+  obtain ⟨j, r0, h0, rfl⟩ := h
+  refine ⟨j + 1, r0, ?_, rfl⟩
+  rw [show d + (j + 1) = d + 1 + j by omega]
+  exact h0
+
+/-! ### the side condition of `call/N`: inner fuel, and the goal called is a goal of the fragment -/
+
+/-- `Call` on `g` under `env` resolves and instantiates the goal within the model's inner fuel, and
+    the instantiated goal (if it is not a variable: instantiation error) is a body of the fragment -/
+def callOK (fl : Bool) (env : Env) (g : Term) : Prop :=
+  ∃ g0, resolve inner env g = some g0 ∧
+    ((∃ v, g0 = .var v) ∨ ∃ g', applyAll inner env g0 = some g' ∧ wfT g' = true ∧ dbodyS fl g' = true)
+
+/-- the context `arrive` binds variable 0 to -/
+def indicator (f : String) (n : Nat) : Term := .app "/" (.cons (.atom f) (.cons (.int n) .nil))
+
+/-- every `arrive` at `call/1` that produces this result met the side condition -/
+def ResFine (fl : Bool) (res : Pr × MS) : Prop :=
+  ∀ (fuel : Nat) (g : Term) (K : Cont) (env : Env) (mm : MS),
+    arrive fuel "call" [g] K env mm = some res → callOK fl (env.bind varContext (indicator "call" 1)) g
+
+/-! ### the reference interpreter on `call/1` -/
+
+theorem solveAlts_frames (prog : List Term) (n d nv : Nat) (fs : List SLD.Frame) (rest : List SLD.Frame)
+    (q : Term) (limit : Nat) :
+    SLD.solveAlts false prog (n + 1) d nv [.frames fs] rest q limit =
+      match SLD.solve false prog n (d + 1) nv (fs ++ rest) q limit with
+      | none => none
+      | some r =>
+        match r.stop with
+        | .exhausted => (SLD.solveAlts false prog n d nv [] rest q (limit - r.answers.length)).map (SLD.Res.prepend r.answers)
+        | .cut c' => some { r with stop := if c' = d then .exhausted else .cut c' }
+        | _ => some r := by
+  rw [SLD.solveAlts]
+  rfl
+
+theorem goalS_isGoal {fl : Bool} {t : Term} (h : goalS fl t = true) : SLD.isGoal t = true := by
+  rcases goalS_cases h with rfl | h
+  · rfl
+  · rcases stepGoal_cases h with h | ⟨_, hc⟩
+    · cases t <;> simp_all [hornGoal, SLD.isGoal]
+    · cases hc with
+      | call x hx => subst hx; rfl
+      | ite c t e hx => subst hx; rfl
+      | ifthen c t hx => subst hx; rfl
+      | once x hx => subst hx; rfl
+      | neg x hx => subst hx; rfl
+
+theorem okBody_S {fl : Bool} {b : Term} (h : bodyS fl b = true) : SLD.okBody false b = true := by
+  simp only [SLD.okBody, Bool.false_eq_true, if_false, disjuncts_horn b h, List.all_cons, List.all_nil, Bool.and_true]
+  simp only [bodyS, List.all_eq_true] at h ⊢
+  exact fun t ht => goalS_isGoal (h t ht)
+
+theorem addArgs_nil {b : Term} (hw : wfT b = true) (hnv : ∀ v, b ≠ .var v) (hc : SLD.isGoal b = true) :
+    SLD.addArgs b [] = some b := by
+  cases b with
+  | var v => exact absurd rfl (hnv v)
+  | atom f => simp [SLD.addArgs, SLD.functor, Term.mk]
+  | app f as =>
+    cases as with
+    | nil => simp [wfT] at hw
+    | cons a as' => simp [SLD.addArgs, SLD.functor, Term.mk, Args.toList, Args.ofList]
+  | _ => simp [SLD.isGoal] at hc
+
+theorem bodyS_isGoal {fl : Bool} {b : Term} (h : bodyS fl b = true) (hnv : ∀ v, b ≠ .var v) : SLD.isGoal b = true := by
+  cases b with
+  | var v => exact absurd rfl (hnv v)
+  | atom _ => rfl
+  | app _ _ => rfl
+  | int i => simp [bodyS, SLD.conjuncts, SLD.wrapVar, goalS, stepGoal, ctlGoal, hornGoal] at h
+  | flt i => simp [bodyS, SLD.conjuncts, SLD.wrapVar, goalS, stepGoal, ctlGoal, hornGoal] at h
+  | str i => simp [bodyS, SLD.conjuncts, SLD.wrapVar, goalS, stepGoal, ctlGoal, hornGoal] at h
+
+theorem addArgs_nil' {b : Term} (hw : ∀ f, b ≠ .app f .nil) (hnv : ∀ v, b ≠ .var v) (hc : SLD.isGoal b = true) :
+    SLD.addArgs b [] = some b := by
+  cases b with
+  | var v => exact absurd rfl (hnv v)
+  | atom f => simp [SLD.addArgs, SLD.functor, Term.mk]
+  | app f as =>
+    cases as with
+    | nil => exact absurd rfl (hw f)
+    | cons a as' => simp [SLD.addArgs, SLD.functor, Term.mk, Args.toList, Args.ofList]
+  | _ => simp [SLD.isGoal] at hc
+
+/-- `call(b)`, `b` a body of the fragment whose top-level term is well-formed -/
+theorem solve_call1' (prog : List Term) (n d nv l : Nat) (b : Term) (rest : List SLD.Frame) (q : Term) (limit : Nat)
+    {fl : Bool} (hb : bodyS fl b = true) (hw : ∀ f, b ≠ .app f .nil) (hnv : ∀ v, b ≠ .var v) :
+    SLD.solve false prog (n + 1) d nv (.goal (SLD.call1 b) l :: rest) q limit =
+      SLD.solveAlts false prog n d nv [.frames ((SLD.conjuncts b).map (SLD.Frame.goal · d))] rest q limit := by
+  rw [SLD.solve]
+  · simp only [SLD.call1, SLD.functor, Args.toList, List.length_nil, Nat.not_lt_zero, if_false,
+      addArgs_nil' hw hnv (bodyS_isGoal hb hnv), okBody_S hb, if_true, SLD.bodyAlts, Bool.false_eq_true,
+      disjuncts_horn b hb, List.map_cons, List.map_nil, SLD.bodyFrames]
+  · intro v hv; cases hv
+
+theorem solve_call1 (prog : List Term) (n d nv l : Nat) (b : Term) (rest : List SLD.Frame) (q : Term) (limit : Nat)
+    {fl : Bool} (hb : bodyS fl b = true) (hw : wfT b = true) (hnv : ∀ v, b ≠ .var v) :
+    SLD.solve false prog (n + 1) d nv (.goal (SLD.call1 b) l :: rest) q limit =
+      SLD.solveAlts false prog n d nv [.frames ((SLD.conjuncts b).map (SLD.Frame.goal · d))] rest q limit :=
+  solve_call1' prog n d nv l b rest q limit hb (fun f hf => by rw [hf] at hw; simp [wfT] at hw) hnv
+
+theorem solve_call_var (prog : List Term) (n d nv l v : Nat) (rest : List SLD.Frame) (q : Term) (limit : Nat) :
+    SLD.solve false prog (n + 1) d nv (.goal (SLD.call1 (.var v)) l :: rest) q limit = SLD.raise SLD.instErr := by
+  rw [SLD.solve]
+  · simp [SLD.call1, SLD.functor, Args.toList, SLD.addArgs]
+  · intro v hv; cases hv
+
+theorem conjuncts_rename (ρ : Nat → Nat) (b : Term) :
+    SLD.conjuncts (b.rename ρ) = (SLD.conjuncts b).map (Term.rename ρ) := by
+  fun_induction SLD.conjuncts b with
+  | case1 a b iha ihb =>
+    have e : (Term.app "," (.cons a (.cons b .nil))).rename ρ = .app "," (.cons (a.rename ρ) (.cons (b.rename ρ) .nil)) := rfl
+    rw [e]
+    simp only [SLD.conjuncts, List.map_append, iha, ihb]
+  | case2 t hne =>
+    have hne' : ∀ a b, t.rename ρ ≠ .app "," (.cons a (.cons b .nil)) := by
+      intro a b heq
+      cases t with
+      | app f as =>
+        simp only [Term.rename, Term.subst, Term.app.injEq] at heq
+        obtain ⟨rfl, has⟩ := heq
+        cases as with
+        | nil => simp [Args.subst] at has
+        | cons x xs => cases xs with
+          | nil => simp [Args.subst] at has
+          | cons y ys => cases ys with
+            | nil => exact hne x y rfl
+            | cons _ _ => simp [Args.subst] at has
+      | var v => simp [Term.rename, Term.subst] at heq
+      | _ => simp [Term.rename, Term.subst] at heq
+    have h1 : SLD.conjuncts (t.rename ρ) = [SLD.wrapVar (t.rename ρ)] := by
+      unfold SLD.conjuncts
+      split
+      · rename_i a b heq; exact absurd heq (hne' a b)
+      · rfl
+    rw [h1]
+    cases t <;> simp [Term.rename, Term.subst, SLD.wrapVar, SLD.call1, Args.subst]
+
+theorem semi_rename_inv {t : Term} {ρ : Nat → Nat} {f : String} {x y : Term}
+    (h : t.rename ρ = .app f (.cons x (.cons y .nil))) :
+    ∃ a b, t = .app f (.cons a (.cons b .nil)) ∧ a.rename ρ = x ∧ b.rename ρ = y := by
+  obtain ⟨as', rfl, has⟩ := rename_eq_app h
+  obtain ⟨a, bs, rfl, ha, hb⟩ := subst_eq_cons has
+  obtain ⟨b, bs', rfl, hb1, hb2⟩ := subst_eq_cons hb
+  rw [subst_eq_nil hb2]
+  exact ⟨a, b, rfl, ha, hb1⟩
+
+theorem disjuncts_plain (a b : Term) (hna : ∀ c t, a ≠ .app "->" (.cons c (.cons t .nil))) :
+    SLD.disjuncts (.app ";" (.cons a (.cons b .nil))) = a :: SLD.disjuncts b := by
+  conv => lhs; unfold SLD.disjuncts
+  split
+  · rename_i c t e heq
+    simp only [Term.app.injEq, Args.cons.injEq, true_and, and_true] at heq
+    exact absurd heq.1 (hna c t)
+  · rename_i a' b' _ heq
+    simp only [Term.app.injEq, Args.cons.injEq, true_and, and_true] at heq
+    obtain ⟨rfl, rfl⟩ := heq
+    rfl
+  · rename_i h2
+    exact absurd rfl (h2 _ _)
+
+theorem disjuncts_other (t : Term) (h2 : ∀ a b, t ≠ .app ";" (.cons a (.cons b .nil))) :
+    SLD.disjuncts t = [t] := by
+  unfold SLD.disjuncts
+  split
+  · rename_i c t' e; exact absurd rfl (h2 _ _)
+  · rename_i a b _; exact absurd rfl (h2 _ _)
+  · rfl
+
+theorem disjuncts_rename (ρ : Nat → Nat) (b : Term) :
+    SLD.disjuncts (b.rename ρ) = (SLD.disjuncts b).map (Term.rename ρ) := by
+  fun_induction SLD.disjuncts b with
+  | case1 c t e => rfl
+  | case2 a b hna ih =>
+    have e : (Term.app ";" (.cons a (.cons b .nil))).rename ρ = .app ";" (.cons (a.rename ρ) (.cons (b.rename ρ) .nil)) := rfl
+    rw [e]
+    have hna' : ∀ c t, a.rename ρ ≠ .app "->" (.cons c (.cons t .nil)) := by
+      intro c t heq
+      obtain ⟨c', t', rfl, _, _⟩ := semi_rename_inv heq
+      exact hna c' t' rfl
+    rw [disjuncts_plain _ _ hna', ih]; rfl
+  | case3 t h1 h2 =>
+    have h2' : ∀ a b, t.rename ρ ≠ .app ";" (.cons a (.cons b .nil)) := by
+      intro a b heq
+      obtain ⟨a', b', rfl, _, _⟩ := semi_rename_inv heq
+      exact h2 a' b' rfl
+    rw [disjuncts_other _ h2']; rfl
+
+theorem disjuncts_vars {b dj : Term} {x : Nat} (hd : dj ∈ SLD.disjuncts b) (hx : dj.hasVar x = true) :
+    b.hasVar x = true := by
+  fun_induction SLD.disjuncts b with
+  | case1 c t e =>
+    simp only [List.mem_singleton] at hd
+    subst hd; exact hx
+  | case2 a b hna ih =>
+    rcases List.mem_cons.1 hd with rfl | hd
+    · simp [Term.hasVar, Args.hasVar, hx]
+    · simp [Term.hasVar, Args.hasVar, ih hd]
+  | case3 t h1 h2 =>
+    simp only [List.mem_singleton] at hd
+    subst hd; exact hx
+
+theorem goalS_rename (fl : Bool) (ρ : Nat → Nat) (t : Term) : goalS fl (t.rename ρ) = goalS fl t := by
+  simp only [goalS, stepGoal_rename]
+  have : (t.rename ρ == Term.atom "!") = (t == Term.atom "!") := by
+    cases t with
+    | var v =>
+      have h1 : (Term.rename ρ (.var v) == Term.atom "!") = false := by simp [Term.rename, Term.subst]
+      have h2 : (Term.var v == Term.atom "!") = false := by simp
+      rw [h1, h2]
+    | app f as =>
+      have h1 : (Term.rename ρ (.app f as) == Term.atom "!") = false := by simp [Term.rename, Term.subst]
+      have h2 : (Term.app f as == Term.atom "!") = false := by simp
+      rw [h1, h2]
+    | _ => rfl
+  rw [this]
+
+theorem bodyS_rename (fl : Bool) (ρ : Nat → Nat) (b : Term) : bodyS fl (b.rename ρ) = bodyS fl b := by
+  unfold bodyS
+  rw [conjuncts_rename, List.all_map]
+  congr 1
+  funext t
+  simp only [Function.comp, goalS_rename]
+
+theorem dbodyS_rename (fl : Bool) (ρ : Nat → Nat) (b : Term) : dbodyS fl (b.rename ρ) = dbodyS fl b := by
+  unfold dbodyS
+  rw [disjuncts_rename, List.all_map]
+  congr 1
+  funext t
+  simp only [Function.comp, bodyS_rename]
+
+theorem dbodyS_isGoal {fl : Bool} {b : Term} (h : dbodyS fl b = true) (hnv : ∀ v, b ≠ .var v) : SLD.isGoal b = true := by
+  cases b with
+  | var v => exact absurd rfl (hnv v)
+  | atom _ => rfl
+  | app _ _ => rfl
+  | int i => simp [dbodyS, SLD.disjuncts, bodyS, SLD.conjuncts, SLD.wrapVar, goalS, stepGoal, ctlGoal, hornGoal] at h
+  | flt i => simp [dbodyS, SLD.disjuncts, bodyS, SLD.conjuncts, SLD.wrapVar, goalS, stepGoal, ctlGoal, hornGoal] at h
+  | str i => simp [dbodyS, SLD.disjuncts, bodyS, SLD.conjuncts, SLD.wrapVar, goalS, stepGoal, ctlGoal, hornGoal] at h
+
+/-- `call(b)`, the top-level disjuncts of `b` bodies of the fragment: one alternative per disjunct -/
+theorem solve_call1M (prog : List Term) (n d nv l : Nat) (b : Term) (rest : List SLD.Frame) (q : Term) (limit : Nat)
+    {fl : Bool} (hb : dbodyS fl b = true) (hw : ∀ f, b ≠ .app f .nil) (hnv : ∀ v, b ≠ .var v) :
+    SLD.solve false prog (n + 1) d nv (.goal (SLD.call1 b) l :: rest) q limit =
+      SLD.solveAlts false prog n d nv ((SLD.disjuncts b).map (fun x => .frames (SLD.bodyFrames false x d))) rest q
+        limit := by
+  have hok : SLD.okBody false b = true := by
+    simp only [SLD.okBody, Bool.false_eq_true, if_false, List.all_eq_true]
+    intro dj hdj t ht
+    simp only [dbodyS, List.all_eq_true] at hb
+    have := hb dj hdj
+    simp only [bodyS, List.all_eq_true] at this
+    exact goalS_isGoal (this t ht)
+  rw [SLD.solve]
+  · simp only [SLD.call1, SLD.functor, Args.toList, List.length_nil, Nat.not_lt_zero, if_false,
+      addArgs_nil' hw hnv (dbodyS_isGoal hb hnv), hok, if_true, SLD.bodyAlts, Bool.false_eq_true]
+  · intro v hv; cases hv
 
 /-! ### the bootstrap clause `true.` -/
 
@@ -242,10 +631,12 @@ theorem functor_img {σ : Subst} {π : Nat → Nat} {g : Term} (hg : Shape g) :
 
 theorem GRel.congr {lv : Lv} {σ σ' : Subst} {π π' : Nat → Nat} {D : Nat → Prop} {G : List (Term × Nat)}
     {R : List SLD.Frame}
-    (h : GRel lv σ π D G R) (heq : ∀ t, InD D t → img σ' π' t = img σ π t) : GRel lv σ' π' D G R := by
-  refine Forall2.imp h ?_
-  rintro g fr ⟨hg, l, rfl, hl⟩
-  exact ⟨hg, l, by rw [heq g.1 hg], hl⟩
+    (h : GRel mo lv σ π D G R) (heq : ∀ t, InD D t → img σ' π' t = img σ π t) : GRel mo lv σ' π' D G R := by
+  refine h.imp ?_
+  rintro g _ fr ⟨hg, l, hfr, hl⟩
+  refine ⟨hg, l, ?_, hl⟩
+  rw [heq g.1 hg]
+  exact hfr
 
 /-! ### `mkErr` keeps a closed formal -/
 
@@ -366,5 +757,113 @@ theorem mkErr_closed (F : Term) (hF : Closed' F) (env : Env) (m : MS) :
   unfold mkErr renamedCopy
   simp only [hc0, freshVars, errT, renameWith, renameArgs, renameWith_closed _ F hF]
   rfl
+
+/-! ### the reference interpreter on calls with one alternative -/
+
+theorem solveAlts_single (prog : List Term) (n d nv : Nat) (fs : List SLD.Frame) (rest : List SLD.Frame)
+    (q : Term) (limit : Nat) :
+    SLD.solveAlts false prog (n + 1) d nv [.frames fs] rest q limit =
+      (SLD.solve false prog n (d + 1) nv (fs ++ rest) q limit).map (post d) := by
+  rw [solveAlts_frames]
+  cases hs : SLD.solve false prog n (d + 1) nv (fs ++ rest) q limit with
+  | none => rfl
+  | some r =>
+    cases n with
+    | zero => rw [solve_zero] at hs; cases hs
+    | succ n' =>
+      simp only [Option.map_some]
+      cases hst : r.stop with
+      | exhausted => simp [post, hst, solveAlts_nil, SLD.failed, SLD.Res.prepend]
+      | cut c => simp [post, hst]
+      | full => simp [post, hst]
+      | raised b ex => simp [post, hst]
+
+/-- `call(true)`: nothing happens, one call deeper -/
+theorem solve_skip_some {prog : List Term} {n d nv l : Nat} {R : List SLD.Frame} {q : Term} {limit : Nat} {r : SLD.Res}
+    (h : SLD.solve false prog n d nv (skipF l :: R) q limit = some r) :
+    ∃ n' r1, SLD.solve false prog n' (d + 1) nv R q limit = some r1 ∧ r = post d r1 := by
+  cases n with
+  | zero => rw [solve_zero] at h; cases h
+  | succ n1 =>
+  rw [skipF, solve_call1 (fl := false) _ _ _ _ _ _ _ _ _ (by decide +kernel) (by decide) (fun v hv => by cases hv)] at h
+  cases n1 with
+  | zero => rw [solveAlts_zero] at h; cases h
+  | succ n2 =>
+  have hc : (SLD.conjuncts (.atom "true")).map (SLD.Frame.goal · d) = [SLD.Frame.goal (.atom "true") d] := by
+    simp [SLD.conjuncts, SLD.wrapVar]
+  rw [hc, solveAlts_single] at h
+  cases n2 with
+  | zero => rw [solve_zero] at h; cases h
+  | succ n3 =>
+  rw [List.singleton_append, solve_true] at h
+  simp only [Option.map_eq_some_iff] at h
+  obtain ⟨r1, h1, rfl⟩ := h
+  exact ⟨n3, r1, h1, rfl⟩
+
+/-- `call(call(G))`: `call(G)`, one call deeper -/
+theorem solve_callw_some {prog : List Term} {n d nv l : Nat} {c : Term} {R : List SLD.Frame} {q : Term} {limit : Nat}
+    {r : SLD.Res}
+    (h : SLD.solve false prog n d nv (.goal (SLD.call1 (SLD.call1 c)) l :: R) q limit = some r) :
+    ∃ n' r1, SLD.solve false prog n' (d + 1) nv (.goal (SLD.call1 c) d :: R) q limit = some r1 ∧ r = post d r1 := by
+  cases n with
+  | zero => rw [solve_zero] at h; cases h
+  | succ n1 =>
+  have hb : bodyS true (SLD.call1 c) = true := by
+    simp [bodyS, SLD.conjuncts, SLD.wrapVar, SLD.call1, goalS, stepGoal, ctlGoal]
+  rw [solve_call1' (fl := true) _ _ _ _ _ _ _ _ _ hb (fun f hf => by simp [SLD.call1] at hf)
+    (fun v hv => by cases hv)] at h
+  cases n1 with
+  | zero => rw [solveAlts_zero] at h; cases h
+  | succ n2 =>
+  have hc : (SLD.conjuncts (SLD.call1 c)).map (SLD.Frame.goal · d) = [SLD.Frame.goal (SLD.call1 c) d] := by
+    simp [SLD.conjuncts, SLD.wrapVar, SLD.call1]
+  rw [hc, solveAlts_single] at h
+  simp only [Option.map_eq_some_iff] at h
+  obtain ⟨r1, h1, rfl⟩ := h
+  exact ⟨n2, r1, h1, rfl⟩
+
+/-- the rest of the then-branch of `\\+ G` ≡ `(call(G) -> fail ; true)`: cut, fail -/
+theorem solve_tail_some {prog : List Term} {n d nv dN l : Nat} {Rout : List SLD.Frame} {q : Term} {limit : Nat}
+    {r : SLD.Res}
+    (h : SLD.solve false prog n d nv (.goal (.atom "!") dN :: .goal (SLD.call1 (.atom "fail")) l :: Rout) q limit = some r) :
+    r = ⟨[], .cut dN⟩ := by
+  cases n with
+  | zero => rw [solve_zero] at h; cases h
+  | succ n1 =>
+  rw [solve_cut] at h
+  simp only [Option.map_eq_some_iff] at h
+  obtain ⟨r1, h1, rfl⟩ := h
+  cases n1 with
+  | zero => rw [solve_zero] at h1; cases h1
+  | succ n2 =>
+  have e1 : SLD.solve false prog (n2 + 1) d nv (.goal (SLD.call1 (.atom "fail")) l :: Rout) q limit =
+      SLD.solveAlts false prog n2 d nv [.frames [.goal (.atom "fail") d]] Rout q limit := by
+    rw [SLD.solve]
+    · simp [SLD.call1, SLD.functor, Args.toList, SLD.addArgs, Term.mk, SLD.okBody, SLD.disjuncts, SLD.conjuncts,
+        SLD.wrapVar, SLD.isGoal, SLD.bodyAlts, SLD.bodyFrames]
+    · intro v hv; cases hv
+  rw [e1] at h1
+  cases n2 with
+  | zero => rw [solveAlts_zero] at h1; cases h1
+  | succ n3 =>
+  rw [solveAlts_single] at h1
+  simp only [Option.map_eq_some_iff] at h1
+  obtain ⟨r2, h2, rfl⟩ := h1
+  cases n3 with
+  | zero => rw [solve_zero] at h2; cases h2
+  | succ n4 =>
+  have e2 : SLD.solve false prog (n4 + 1) (d + 1) nv ([SLD.Frame.goal (.atom "fail") d] ++ Rout) q limit =
+      SLD.solveAlts false prog n4 (d + 1) nv [] Rout q limit := by
+    rw [List.singleton_append, SLD.solve]
+    · simp [SLD.functor, SLD.builtin]
+    · intro v hv; cases hv
+  rw [e2] at h2
+  cases n4 with
+  | zero => rw [solveAlts_zero] at h2; cases h2
+  | succ n5 =>
+  rw [solveAlts_nil] at h2
+  simp only [SLD.failed, Option.some.injEq] at h2
+  subst h2
+  simp [post, SLD.afterCut]
 
 end PrologVerif.Refine
